@@ -12,6 +12,7 @@ import (
 	"github.com/paulsonkoly/chess-3/move"
 	"github.com/paulsonkoly/chess-3/uci"
 
+	"verif/harness/conv"
 	"verif/harness/eng"
 	"verif/harness/ev"
 	"verif/harness/gen"
@@ -188,9 +189,9 @@ func TestCheck(t *testing.T) {
 				}
 				nx := p.Make(m)
 				nx = nx.Normalised()
-				rv := b.MakeMove(move.Move(m))
+				rv := b.MakeMove(conv.M(m))
 				checkPos(r, w, &nx, b, witness{Kind: "reached", Start: p.FEN(), Moves: []string{m.String()}, FEN: nx.FEN()})
-				b.UndoMove(move.Move(m), rv)
+				b.UndoMove(conv.M(m), rv)
 				w.lc.C["positions_reached_by_one_move"]++
 				if dbl {
 					w.lc.C["positions_reached_by_double_push"]++
@@ -224,7 +225,7 @@ func TestCheck(t *testing.T) {
 		b := eng.MustBoard(&start)
 		wit := witness{Kind: "reached", Start: start.FEN()}
 		for _, st := range steps {
-			b.MakeMove(move.Move(st.Move))
+			b.MakeMove(conv.M(st.Move))
 			wit.Moves = append(wit.Moves, st.Move.String())
 			wit.FEN = st.Pos.FEN()
 			p := st.Pos
@@ -365,7 +366,7 @@ func replay(t *testing.T, r *ev.Run) {
 			if found == 0 {
 				t.Fatalf("replay: move %s not legal in %s", ms, p.FEN())
 			}
-			b.MakeMove(move.Move(found))
+			b.MakeMove(conv.M(found))
 			p = p.Make(found)
 			p = p.Normalised()
 		}
